@@ -103,21 +103,10 @@ def s1_s2(ck, an):
         nz = any(rel_is(p, "!=", Q) for p in preds)
         ck.check(nz, "GUARD", "S2.flat-needs-no-quote", subj, fa.loc(rd), "order books are read only under quantity != 0",
                  "an order book is read for flat positions too (a discontinued flat contract would fail valuation)", construct=stmt_text(rd))
-    # flat positions are valued 0: every definition of the stored value is either the constant 0 or made under quantity != 0
-    stores = [n for n in ast.walk(loop) if isinstance(n, ast.Assign) and isinstance(n.targets[0], ast.Subscript) and isinstance(n.value, ast.Name)]
-    for st in stores:
-        defs = fa.rd.reaching(st.value.id, fa.node_of(st).id)
-        zero = [d for d in defs if d.kind == "assign" and const_value(d.value) in (0, 0.0) and not isinstance(const_value(d.value), bool)]
-        other = [d for d in defs if d not in zero]
-        bad = []
-        for d in other:
-            preds = fa.guard_predicates(d.ast)
-            if not any(rel_is(p, "!=", Q) for p in preds):
-                bad.append(ast.unparse(d.ast)[:60])
-        ck.check(bool(zero) and not bad, "GUARD", "S2.flat-valued-zero", subj, fa.loc(st), "flat positions are valued 0.0 (all other valuations happen under quantity != 0)",
-                 f"flat positions are not valued by the constant 0: zero-defs={len(zero)}, unguarded valuations={bad}", construct=stmt_text(st))
-    if not stores:
-        ck.fail("GUARD", "S2.flat-valued-zero", subj, fa.loc(loop), "no store of the per-contract value found", construct="missing:holdings_values[contract] = value")
+    # flat positions are valued 0 and stored: read off the state at the end of one loop iteration under `quantity == 0` (any statement form)
+    from rules import ledger
+    from sa.report import Renamed as _Rn
+    ledger.valuation_formulas(ledger._Only(_Rn(ck, "S2:"), {"flat-worth-zero", "unknown-kind-raises"}), an, set())
 
 
 def s3(ck, an):
